@@ -22,6 +22,32 @@ ASSUMPTIONS = ["meshio stores and returns cell_data / point_data arrays unchange
 IO = "bempp_cl/api/grid/io.py"
 
 
+def _stores(body, sink, guard):
+    """(innermost guard, statement) of every store into the dict `sink` below `body`; guard = (test, branch taken)."""
+    for st in body:
+        if isinstance(st, ast.Assign) and len(st.targets) == 1:
+            t = st.targets[0]
+            if (isinstance(t, ast.Name) and t.id == sink) or (isinstance(t, ast.Subscript) and unparse(t.value) == sink):
+                yield guard, st
+        elif isinstance(st, ast.If):
+            yield from _stores(st.body, sink, (st.test, True))
+            yield from _stores(st.orelse, sink, (st.test, False))
+        elif isinstance(st, (ast.For, ast.While, ast.With, ast.Try)):
+            for field in ("body", "orelse", "finalbody"):
+                yield from _stores(getattr(st, field, []) or [], sink, guard)
+
+
+def _entries(st, sink):
+    t = st.targets[0]
+    if isinstance(t, ast.Subscript):
+        if not isinstance(t.slice, ast.Constant):
+            raise AnalysisError("export: non-literal key stored into %s at line %d" % (sink, st.lineno))
+        return [(t.slice.value, st.value)]
+    if not isinstance(st.value, ast.Dict) or not all(isinstance(k, ast.Constant) for k in st.value.keys):
+        raise AnalysisError("export: %s assigned a non-literal dict at line %d" % (sink, st.lineno))
+    return [(k.value, v) for k, v in zip(st.value.keys, st.value.values)]
+
+
 def run(ctx):
     m = ctx.repo.mod(IO)
     imp = m.fn("import_grid")
@@ -37,9 +63,19 @@ def run(ctx):
     if not keys:
         raise AnalysisError("import_grid: no cell-data key is read into domain_indices")
     defs = roles.Defs(exp)
+    # the one meshio write call names the sinks: everything below is phrased on what reaches that call
+    wcall = [c for c in calls_in(exp) if unparse(c.func).endswith("write_points_cells")]
+    if len(wcall) != 1:
+        raise AnalysisError("export: expected exactly one meshio write_points_cells call, found %d" % len(wcall))
+    wcall = wcall[0]
+    wargs = dict(zip(("filename", "points", "cells", "point_data", "cell_data"), wcall.args))
+    wargs.update({k.arg: k.value for k in wcall.keywords})
+    if not all(isinstance(wargs.get(k), ast.Name) for k in ("point_data", "cell_data")):
+        raise AnalysisError("export: point_data/cell_data are not passed to meshio as plain local names")
+    point_sink, cell_sink = wargs["point_data"].id, wargs["cell_data"].id
     written = {}
     for st in ast.walk(exp):
-        if isinstance(st, ast.Assign) and isinstance(st.targets[0], ast.Subscript) and unparse(st.targets[0].value) == "cell_data" and isinstance(st.targets[0].slice, ast.Constant):
+        if isinstance(st, ast.Assign) and isinstance(st.targets[0], ast.Subscript) and unparse(st.targets[0].value) == cell_sink and isinstance(st.targets[0].slice, ast.Constant):
             written[st.targets[0].slice.value] = (roles.canon(st.value, defs).replace(" ", ""), st.lineno)
     r = ctx.rule("TAG-PROVENANCE", "every cell-data key the importer may take domain indices from is written by the exporter with the domain indices themselves", 2)
     want = "grid.domain_indices.reshape((1,USub(1)))"
@@ -52,38 +88,46 @@ def run(ctx):
                 "the importer may take domain indices from %r, but the exporter writes `%s` there (not the domain indices): a grid whose importer falls back to this key does not round-trip" % (key, w[0][:120]))
     # the importer's Grid(...) construction and the exporter's arrays
     r2 = ctx.rule("MESH-ARRAYS", "cells/points are written from elements.T / vertices.T and read back with the inverse transposes; domain indices are forwarded", 3)
-    pts = roles.canon(ast.Name(id="points", ctx=ast.Load(), lineno=10**6), defs).replace(" ", "")
-    cells = roles.canon(ast.Name(id="cells", ctx=ast.Load(), lineno=10**6), defs).replace(" ", "")
-    r2.check(pts == "grid.vertices.T" and cells == "[('triangle',grid.elements.T)]", "export arrays", IO, "export", exp.lineno, "export points/cells %s %s" % (pts, cells),
-             "points/cells are written from `%s` / `%s`" % (pts, cells))
+    pts = roles.canon(wargs["points"], defs).replace(" ", "") if "points" in wargs else "<missing>"
+    cells = roles.canon(wargs["cells"], defs).replace(" ", "") if "cells" in wargs else "<missing>"
+    r2.check(pts == "grid.vertices.T" and cells == "[('triangle',grid.elements.T)]", "export arrays", IO, "export", wcall.lineno, "export points/cells %s %s" % (pts, cells),
+             "points/cells reach meshio as `%s` / `%s`" % (pts, cells))
     idefs = roles.Defs(imp)
     ret = [s for s in imp.body if isinstance(s, ast.Return)][0]
     got = roles.canon(ret.value, idefs).replace(" ", "")
     r2.check(got.startswith("Grid(_meshio.read(filename).points.T,_meshio.read(filename).cells_dict['triangle'].T,domain_indices="), "import arrays", IO, "import_grid", ret.lineno,
              "import returns " + got[:100], "import_grid builds `%s`" % got[:200])
-    wcall = [c for c in calls_in(exp) if unparse(c.func).endswith("write_points_cells")]
-    okw = len(wcall) == 1 and [unparse(a) for a in wcall[0].args] == ["filename", "points", "cells"] and {k.arg: unparse(k.value) for k in wcall[0].keywords} == {
-        "point_data": "point_data", "cell_data": "cell_data", "file_format": "file_format", "binary": "write_binary"}
-    r2.check(okw, "write call", IO, "export", wcall[0].lineno if wcall else exp.lineno, "meshio write call", "write_points_cells no longer receives (filename, points, cells, point_data, cell_data, file_format, binary)")
+    passed = {k: roles.canon(v, defs).replace(" ", "") for k, v in wargs.items()}
+    okw = passed.get("filename") == "filename" and passed.get("binary") == "write_binary" and isinstance(wargs.get("file_format"), ast.Name) and set(wargs) == {
+        "filename", "points", "cells", "point_data", "cell_data", "file_format", "binary"}
+    r2.check(okw, "write call", IO, "export", wcall.lineno, "meshio write call", "write_points_cells receives %s" % {k: v[:40] for k, v in passed.items()})
     # data plumbing
     r3 = ctx.rule("DATA-PLUMBING", "node data: evaluate_on_vertices -> point_data; element data: evaluate_on_element_centers -> cell_data; transformation before the real/imag split; complex data write both parts", 2)
     branches = {}
     for st in ast.walk(exp):
         if isinstance(st, ast.If) and isinstance(st.test, ast.Compare) and unparse(st.test.left) == "data_type" and isinstance(st.test.comparators[0], ast.Constant):
             branches[st.test.comparators[0].value] = st
-    for kind, src_fn, sink in (("node", "evaluate_on_vertices", "point_data"), ("element", "evaluate_on_element_centers", "cell_data")):
+    for kind, src_fn, sink in (("node", "evaluate_on_vertices", point_sink), ("element", "evaluate_on_element_centers", cell_sink)):
         b = branches.get(kind)
         ok = False
         msg = "no `data_type == %r` branch" % kind
         if b is not None:
-            s = "".join(unparse(x).replace(" ", "") for x in b.body)
-            data_ok = "data=_transform_array(grid_function.%s(),transformation).T" % src_fn in s
-            if sink == "point_data":
-                split_ok = "point_data={'real':_np.real(data),'imag':_np.imag(data)}" in s and "point_data={'data':data}" in s
-            else:
-                split_ok = "cell_data['real']=_np.real(data)" in s and "cell_data['imag']=_np.imag(data)" in s and "cell_data['data']=" in s
-            ok = data_ok and split_ok and "if_np.iscomplexobj(data):" in s
-            msg = "branch for data_type %r: source/transformation ok=%s, real/imag split into %s ok=%s" % (kind, data_ok, sink, split_ok)
+            D = "_transform_array(grid_function.%s(),transformation).T" % src_fn
+            # one array per cell block for cell data (meshio's cell_data layout), the bare array for point data
+            wrap = (lambda x: "[%s]" % x) if sink == cell_sink else (lambda x: x)
+            want = {True: {"real": wrap("_np.real(%s)" % D), "imag": wrap("_np.imag(%s)" % D)}, False: {"data": wrap(D)}}
+            got = {True: {}, False: {}}
+            other = []
+            for guard, st in _stores(b.body, sink, None):
+                gtxt = None if guard is None else (roles.canon(guard[0], defs).replace(" ", ""), guard[1])
+                if gtxt is None or gtxt[0] != "_np.iscomplexobj(%s)" % D:
+                    other.append(st.lineno)
+                    continue
+                for k, v in _entries(st, sink):
+                    got[gtxt[1]][k] = roles.canon(v, defs).replace(" ", "")
+            ok = got == want and not other
+            msg = "data_type %r writes %s into %s (complex branch) / %s (real branch); expected %s / %s%s" % (
+                kind, got[True], sink, got[False], want[True], want[False], "; unguarded stores at lines %s" % other if other else "")
         r3.check(ok, "data_type %s" % kind, IO, "export", b.lineno if b is not None else exp.lineno, "export data_type %s plumbing" % kind, msg)
     # transformation modes
     r4 = ctx.rule("TRANSFORM-MODES", "_transform_array dispatches exactly the documented modes (None, real, imag, abs, abs_squared, log_abs, callable)", 1)
